@@ -313,6 +313,20 @@ func (s *Store[K, V]) GetWithSecodary(key K) (V, bool, error) {
 	shard := s.shards[index]
 	shardEntry, ok := s.getFromShard(key, h, shard)
 	if ok {
+		// a hit in memory: report it to the policy exactly as Get does, otherwise
+		// reads of a hybrid cache never improve an entry's standing (frequency,
+		// recency, promotion to the protected region)
+		s.policy.hits.Add(1)
+		idx := s.getReadBufferIdx()
+		var send ReadBufItem[K, V]
+		send.hash = h
+		send.entry = shardEntry.entry
+
+		pb := s.stripedBuffer[idx].Add(send)
+		if pb != nil {
+			s.drainRead(pb.Returned)
+			s.stripedBuffer[idx].Free()
+		}
 		return shardEntry.value, true, nil
 	}
 
